@@ -205,6 +205,17 @@ var checkHist = ev.Register("histogram", func(c *Case) ev.Outcome {
 		}
 		under, over = u2, o2
 		copy(bins, b2)
+		// queries interleaved with the Adds (read-only: they must leave nothing behind that a
+		// later Add does not account for - the quantiles after the last Add are checked below)
+		stats.HistogramQuantile(h, 0.5)
+		if step%3 == 0 {
+			stats.HistogramIQR(h)
+			stats.HistogramQuantile(h, 0)
+			stats.HistogramQuantile(h, 1)
+		}
+		if u3, b3, o3 := h.Counts(); u3 != under || o3 != over || fmt.Sprint(b3) != fmt.Sprint(bins) {
+			return ev.Fail("step %d: a quantile query changed the counts", step)
+		}
 	}
 	total := under + over
 	nonEmpty := 0
